@@ -278,7 +278,7 @@ Qed.
 (* _write(None) in the Active state *)
 Lemma write_none_gen x w r x' w' :
   x_state x = Active -> write_ x None w = (r, x', w') ->
-  (exists o a, x' = upd x o a (x_unflushed x)) /\ wframe w w' /\
+  (exists o a u, x' = upd x o a u) /\ wframe w w' /\
   ((exists b, r = ROk b) \/ exists k, r = RErr (EIo k)) /\
   (soft w -> (exists b, r = ROk b) \/ r = RErr (EIo WouldBlock)).
 Proof.
@@ -292,15 +292,17 @@ Proof.
     assert (Hxb : xb = upd x o None (x_unflushed x)) by (rewrite Hx; reflexivity).
     clear Hx.
     destruct Hr as [->|[[k ->]| ->]].
-    + rewrite Hxb. cbn [x_role x_state x_additional upd]. rewrite Hs. cbn [closing_done].
+    + rewrite Hxb. cbn [x_role x_state x_additional upd set_unflushed]. rewrite Hs. cbn [closing_done].
       rewrite Bool.andb_false_r. cbn [andb]. intros H. inv H. splits; eauto.
+      exists o, None, true. reflexivity.
     + intros H. inv H. splits; eauto.
-      intros S. destruct (Hsr S) as [X|[X|X]]; try discriminate X. inv X. auto.
+      * exists o, None, true. reflexivity.
+      * intros S. destruct (Hsr S) as [X|[X|X]]; try discriminate X. inv X. auto.
     + destruct (set_additional_upd x o None (x_unflushed x) (sent_frame (x_role x) w msg)) as [a' Ha'].
       rewrite Hxb, Ha'. cbn [x_role x_state x_additional upd]. rewrite Hs. cbn [closing_done].
       rewrite Bool.andb_false_r. cbn [andb]. intros H. inv H. splits; eauto.
   - rewrite Hs. cbn [closing_done]. rewrite Bool.andb_false_r. cbn [andb]. intros H. inv H.
-    splits; eauto using wframe_refl. exists (c_out (x_codec x')), None. rewrite <- Ea. apply upd_id.
+    splits; eauto using wframe_refl. exists (c_out (x_codec x')), None, (x_unflushed x'). rewrite <- Ea. apply upd_id.
 Qed.
 
 (* flush in the Active state *)
@@ -310,11 +312,11 @@ Lemma flush_gen x w r x' w' :
 Proof.
   intros Hs. unfold flush.
   destruct (write_ x None w) as [[r0 x0] w0] eqn:EW.
-  apply write_none_gen in EW; [|exact Hs]. destruct EW as [[o [a Hx0]] [Hw0 [Hr0 Hs0]]].
+  apply write_none_gen in EW; [|exact Hs]. destruct EW as [[o [a [u0 Hx0]]] [Hw0 [Hr0 Hs0]]].
   destruct r0 as [b|e|s|].
   - destruct (write_out_buffer (x_codec x0) w0) as [[r1 c1] w1] eqn:EO.
     apply write_out_buffer_gen in EO. destruct EO as [Hc1 [Hw1 [_ [_ [Hr1 Hs1]]]]].
-    assert (Hx1 : set_codec x0 c1 = upd x (c_out c1) a (x_unflushed x)).
+    assert (Hx1 : set_codec x0 c1 = upd x (c_out c1) a u0).
     { rewrite Hc1, Hx0. reflexivity. }
     destruct r1 as [u1|e|s|].
     + destruct (w_flush w1) as [r2 w2] eqn:EF. apply w_flush_gen in EF.
@@ -439,10 +441,10 @@ Proof.
     remember (c_out (x_codec xb)) as o eqn:Eo. clear Eo.
     assert (Hxb' : xb = upd x o None (x_unflushed x)) by (rewrite Hxb; reflexivity). clear Hxb.
     destruct Hio as [->|[k ->]].
-    + rewrite Hxb' in H. cbn [x_additional x_unflushed x_role x_state upd] in H.
+    + rewrite Hxb' in H. cbn [x_additional x_unflushed x_role x_state upd set_unflushed] in H.
       rewrite Hs in H. cbn [closing_done] in H. rewrite Bool.andb_false_r in H. cbn [andb] in H.
       inv H. cbn [x_state x_additional upd]. unfold io_res. splits; auto.
-    + inv H. cbn [x_state x_additional upd]. unfold io_res. splits; eauto.
+    + inv H. cbn [x_state x_additional upd set_unflushed]. unfold io_res. splits; eauto.
 Qed.
 
 Lemma run_ops_app a : forall x b w,
@@ -1210,11 +1212,29 @@ Qed.
 Lemma after_key_fls r w : w_fls (after_key r w) = w_fls w.
 Proof. destruct r; [reflexivity|]. unfold after_key, w_next_key. destruct (w_keys w); reflexivity. Qed.
 
+Lemma acc_fls_S k fls : acc_fls (S k) fls -> acc_fls k fls.
+Proof.
+  revert fls. induction k as [|k IH]; intros fls H; [exact I|].
+  cbn [acc_fls] in *. destruct fls as [|[|e] r]; try contradiction. apply IH. exact H.
+Qed.
+
+(* an empty out_buffer costs no transport write *)
+Lemma write_out_buffer_empty c w :
+  c_out c = [] ->
+  exists w', write_out_buffer c w = (ROk tt, set_out c [], w') /\ w_wrs w' = w_wrs w /\ w_fls w' = w_fls w.
+Proof.
+  intros Eo. unfold write_out_buffer. rewrite Eo, write_out_loop_nil.
+  eexists. split; [reflexivity|]. cbn [w_wrs w_fls]. auto.
+Qed.
+
+(* besides Ok: either the frame stayed in out_buffer and no transport write was used, or out_buffer
+   is empty again *)
 Lemma buffer_frame_accepting T k x f w :
   x_state x = Active ->
   frame_len (sent_frame (x_role x) w f) + blen (c_out (x_codec x)) <= T -> T <= c_max_out (x_codec x) ->
   acc_wrs T (S k) (w_wrs w) ->
-  exists x' w', buffer_frame x f w = (ROk tt, x', w') /\ acc_wrs T k (w_wrs w') /\ w_fls w' = w_fls w.
+  exists x' w', buffer_frame x f w = (ROk tt, x', w') /\ acc_wrs T k (w_wrs w') /\ w_fls w' = w_fls w /\
+    blen (c_out (x_codec x')) <= T /\ (acc_wrs T (S k) (w_wrs w') \/ c_out (x_codec x') = []).
 Proof.
   intros Hs Hfit HT Ha. rewrite buffer_frame_unfold. cbv zeta.
   set (f1 := sent_frame (x_role x) w f) in *. set (w1 := after_key (x_role x) w).
@@ -1229,21 +1249,51 @@ Proof.
     + cbn [c_out set_out]. rewrite blen_app, <- frame_len_exact. lia.
     + exact Ha1.
     + rewrite E. cbn [check_connection_reset]. eexists. eexists. split; [reflexivity|].
-      split; [exact Hacc|]. rewrite Hfl. exact Hf1.
+      split; [exact Hacc|]. split; [rewrite Hfl; exact Hf1|].
+      cbn [x_codec set_state set_codec c_out set_out]. rewrite blen_nil. split; [lia|right; reflexivity].
   - cbn [check_connection_reset]. eexists. eexists. split; [reflexivity|].
-    cbn [w_wrs w_fls w_emit]. split; [apply acc_wrs_S; exact Ha1|exact Hf1].
+    cbn [w_wrs w_fls w_emit]. split; [apply acc_wrs_S; exact Ha1|]. split; [exact Hf1|].
+    cbn [x_codec set_state set_codec c_out set_out]. split; [|left; exact Ha1].
+    rewrite blen_app, <- frame_len_exact. lia.
 Qed.
 
-(* a user write over an accepting transport *)
+(* flush over an accepting transport; an empty out_buffer needs no transport write *)
+Lemma flush_accepting_gen T k x w r x' w' :
+  x_state x = Active -> x_additional x = None ->
+  blen (c_out (x_codec x)) <= T ->
+  acc_wrs T k (w_wrs w) -> (acc_wrs T (S k) (w_wrs w) \/ c_out (x_codec x) = []) ->
+  acc_fls (S k) (w_fls w) ->
+  flush x w = (r, x', w') ->
+  r = ROk tt /\ x_unflushed x' = false /\ c_out (x_codec x') = [] /\
+  acc_wrs T k (w_wrs w') /\ acc_fls k (w_fls w').
+Proof.
+  intros Hs Had Hb Ha0 Ha Hf H. unfold flush in H. rewrite (write_none_none _ _ Hs Had) in H.
+  assert (E : exists w1, write_out_buffer (x_codec x) w = (ROk tt, set_out (x_codec x) [], w1) /\
+                acc_wrs T k (w_wrs w1) /\ w_fls w1 = w_fls w).
+  { destruct Ha as [Ha|Ho].
+    - exact (write_out_buffer_accepting T k (x_codec x) w Hb Ha).
+    - destruct (write_out_buffer_empty (x_codec x) w Ho) as [w1 [E [Hw Hfl]]].
+      exists w1. rewrite Hw. auto. }
+  destruct E as [w1 [E [Hacc Hfl]]].
+  rewrite E in H. unfold w_flush in H. rewrite Hfl in H.
+  destruct (w_fls w) as [|[|e] fr]; cbn [acc_fls] in Hf; try contradiction.
+  inv H. cbn. auto.
+Qed.
+
+(* a user write over an accepting transport.  A pong is moved from additional_send into out_buffer by
+   its own write call, which sets unflushed_additional and does not flush; the next write (or flush)
+   then flushes.  So a write costs at most one transport write and at most one transport flush. *)
 Lemma write_plain_accepting T k x m w r x' w' :
-  x_state x = Active -> x_additional x = None -> x_unflushed x = false -> plain m = true ->
+  x_state x = Active -> x_additional x = None -> plain m = true ->
   frame_len (sent_frame (x_role x) w (frame_of m)) + blen (c_out (x_codec x)) <= T ->
   T <= c_max_out (x_codec x) ->
-  acc_wrs T (S k) (w_wrs w) ->
+  acc_wrs T (S k) (w_wrs w) -> acc_fls (S k) (w_fls w) ->
   write x m w = (r, x', w') ->
-  r = ROk tt /\ x_unflushed x' = false /\ acc_wrs T k (w_wrs w') /\ w_fls w' = w_fls w.
+  r = ROk tt /\ acc_wrs T k (w_wrs w') /\ acc_fls k (w_fls w') /\
+  (x_unflushed x = false ->
+   w_fls w' = w_fls w /\ x_unflushed x' = match m with MPong _ => true | _ => false end).
 Proof.
-  intros Hs Had Hu Hp Hfit HT Ha H.
+  intros Hs Had Hp Hfit HT Ha Hf H.
   unfold write in H. rewrite Hs in H. cbn [is_terminated is_active negb] in H. cbv beta iota zeta in H.
   assert (Hdata : forall f, f = frame_of m ->
     (let '(r0, x1, w1) := write_ x (Some f) w in
@@ -1254,14 +1304,25 @@ Proof.
      | RPanic s => (RPanic s, x1, w1)
      | ROutOfFuel => (ROutOfFuel, x1, w1)
      end) = (r, x', w') ->
-    r = ROk tt /\ x_unflushed x' = false /\ acc_wrs T k (w_wrs w') /\ w_fls w' = w_fls w).
+    r = ROk tt /\ acc_wrs T k (w_wrs w') /\ acc_fls k (w_fls w') /\
+    (x_unflushed x = false -> w_fls w' = w_fls w /\ x_unflushed x' = false)).
   { intros f -> HD. unfold write_ in HD.
-    destruct (buffer_frame_accepting T k x (frame_of m) w Hs Hfit HT Ha) as [x0 [w0 [EB [Hacc Hfl]]]].
+    destruct (buffer_frame_accepting T k x (frame_of m) w Hs Hfit HT Ha)
+      as [x0 [w0 [EB [Hacc [Hfl [Hb0 Hbud]]]]]].
     pose proof (buffer_frame_gen _ _ _ _ _ _ Hs EB) as G. cbv zeta in G. destruct G as [Hx0 _].
-    rewrite Had, Hu in Hx0. remember (c_out (x_codec x0)) as o eqn:Eo. clear Eo.
+    rewrite Had in Hx0. remember (c_out (x_codec x0)) as o eqn:Eo.
     rewrite EB in HD. rewrite Hx0 in HD. cbn [x_additional x_unflushed x_role x_state upd] in HD.
     rewrite Hs in HD. cbn [closing_done] in HD. rewrite Bool.andb_false_r in HD. cbn [andb] in HD.
-    inv HD. cbn [x_unflushed upd]. auto. }
+    destruct (x_unflushed x) eqn:Eu.
+    - apply (flush_accepting_gen T k) in HD.
+      + destruct HD as [-> [_ [_ [Ha' Hf']]]]. splits; auto. intros X; discriminate X.
+      + exact Hs.
+      + reflexivity.
+      + cbn [x_codec upd c_out set_out]. exact Hb0.
+      + exact Hacc.
+      + cbn [x_codec upd c_out set_out]. exact Hbud.
+      + rewrite Hfl. exact Hf.
+    - inv HD. cbn [x_unflushed upd]. splits; auto. rewrite Hfl. apply acc_fls_S. exact Hf. }
   destruct m as [d|d|d|d|c|f]; try discriminate Hp.
   - apply (Hdata _ eq_refl). exact H.
   - apply (Hdata _ eq_refl). exact H.
@@ -1269,13 +1330,15 @@ Proof.
   - unfold set_additional in H. rewrite Had in H. unfold write_ in H. cbv beta iota zeta in H.
     cbn [x_additional set_additional_raw] in H.
     set (xa := set_additional_raw (set_additional_raw x (Some (frame_pong d))) None) in *.
-    destruct (buffer_frame_accepting T k xa (frame_pong d) w Hs Hfit HT Ha) as [x0 [w0 [EB [Hacc Hfl]]]].
+    destruct (buffer_frame_accepting T k xa (frame_pong d) w Hs Hfit HT Ha) as [x0 [w0 [EB [Hacc [Hfl _]]]]].
     pose proof (buffer_frame_gen xa _ _ _ _ _ Hs EB) as G. cbv zeta in G. destruct G as [Hx0 _].
-    cbn [xa x_additional x_unflushed set_additional_raw] in Hx0. rewrite Hu in Hx0.
+    cbn [xa x_additional x_unflushed set_additional_raw] in Hx0.
     remember (c_out (x_codec x0)) as o eqn:Eo. clear Eo.
-    rewrite EB in H. rewrite Hx0 in H. cbn [x_additional x_unflushed x_role x_state upd xa set_additional_raw] in H.
+    rewrite EB in H. rewrite Hx0 in H.
+    cbn [x_additional x_unflushed x_role x_state upd xa set_additional_raw set_unflushed] in H.
     rewrite Hs in H. cbn [closing_done] in H. rewrite Bool.andb_false_r in H. cbn [andb] in H.
-    inv H. cbn [x_unflushed upd set_additional_raw]. auto.
+    inv H. cbn [x_unflushed upd set_additional_raw set_unflushed]. splits; auto.
+    rewrite Hfl. apply acc_fls_S. exact Hf.
 Qed.
 
 Lemma flush_accepting T k x w r x' w' :
@@ -1285,17 +1348,14 @@ Lemma flush_accepting T k x w r x' w' :
   r = ROk tt /\ x_unflushed x' = false /\ c_out (x_codec x') = [] /\
   acc_wrs T k (w_wrs w') /\ acc_fls k (w_fls w').
 Proof.
-  intros Hs Had Hb Ha Hf H. unfold flush in H. rewrite (write_none_none _ _ Hs Had) in H.
-  destruct (write_out_buffer_accepting T k (x_codec x) w Hb Ha) as [w1 [E [Hacc Hfl]]].
-  rewrite E in H. unfold w_flush in H. rewrite Hfl in H.
-  destruct (w_fls w) as [|[|e] fr]; cbn [acc_fls] in Hf; try contradiction.
-  inv H. cbn. auto.
+  intros Hs Had Hb Ha Hf H.
+  exact (flush_accepting_gen T k _ _ _ _ _ Hs Had Hb (acc_wrs_S _ _ _ Ha) (or_introl Ha) Hf H).
 Qed.
 
 Definition res_ok_unit (p : op_result * N) : Prop := fst p = ResUnit (ROk tt).
 
 Lemma wops_accepting T ops : forall x w rs x' w',
-  x_state x = Active -> x_additional x = None -> x_unflushed x = false -> Forall wop_ok ops ->
+  x_state x = Active -> x_additional x = None -> Forall wop_ok ops ->
   wp_inv (c_out (x_codec x)) (w_log w) ->
   blen (enc (queued (w_log w))) + blen (enc (frames_all (x_role x) (w_keys w) (written ops))) <= T ->
   T <= c_max_out (x_codec x) ->
@@ -1303,7 +1363,7 @@ Lemma wops_accepting T ops : forall x w rs x' w',
   run_ops x ops w = (rs, x', w') ->
   Forall res_ok_unit rs.
 Proof.
-  induction ops as [|op ops IH]; intros x w rs x' w' Hs Had Hu Hp Hi Hb HT Ha Hf H.
+  induction ops as [|op ops IH]; intros x w rs x' w' Hs Had Hp Hi Hb HT Ha Hf H.
   - cbn in H. inv H. constructor.
   - inversion Hp as [|? ? Hpm Hps]; subst.
     assert (Hout : blen (c_out (x_codec x)) <= blen (enc (queued (w_log w)))).
@@ -1321,17 +1381,14 @@ Proof.
       pose proof P as [[[evs [El Ht]] [Hmx _]] [_ Hro]].
       assert (Hi1 : wp_inv (c_out (x_codec x1)) (w_log w1)).
       { rewrite El. eapply wp_inv_step; eassumption. }
-      pose proof (write_plain_accepting T _ _ _ _ _ _ _ Hs Had Hu Hpm Hfit HT Ha EW) as [-> [Hu1 [Ha1 Hf1]]].
+      pose proof (write_plain_accepting T _ _ _ _ _ _ _ Hs Had Hpm Hfit HT Ha Hf EW) as [-> [Ha1 [Hf1 _]]].
       apply (write_plain_step _ _ _ _ _ _ Hs Had Hpm Hfit') in EW. fold f1 in EW.
       destruct EW as [_ [Hs1 [Had1 [Hq1 Hk1]]]].
       constructor; [reflexivity|].
-      apply (IH _ _ _ _ _ Hs1 Had1 Hu1 Hps Hi1) in ER; auto.
+      apply (IH _ _ _ _ _ Hs1 Had1 Hps Hi1) in ER; auto.
       * rewrite Hro, Hk1, frames_all_after_key, Hq1, enc_app, blen_app. unfold enc at 2. cbn [map concat].
         rewrite app_nil_r. lia.
       * lia.
-      * rewrite Hf1. cbn [acc_fls] in Hf. destruct (w_fls w) as [|[|e] fr]; try contradiction.
-        clear - Hf. revert fr Hf. induction (length ops) as [|k IHk]; intros fr Hf; [exact I|].
-        cbn [acc_fls] in *. destruct fr as [|[|e] fr']; try contradiction. auto.
     + cbn [run_ops run_op] in H.
       destruct (flush x w) as [[r1 x1] w1] eqn:EF.
       destruct (run_ops x1 ops w1) as [[rs2 x2] w2] eqn:ER. inv H.
@@ -1344,7 +1401,7 @@ Proof.
       apply (flush_none _ _ _ _ _ Hs Had) in EF.
       destruct EF as [_ [[o [u ->]] [Hq1 Hk1]]].
       constructor; [reflexivity|].
-      apply (IH (upd x o None u) _ _ _ _ Hs eq_refl Hu1 Hps Hi1) in ER; auto.
+      apply (IH (upd x o None u) _ _ _ _ Hs eq_refl Hps Hi1) in ER; auto.
       cbn [x_role x_codec upd]. rewrite Hq1, Hk1. exact Hb.
 Qed.
 
@@ -1364,7 +1421,7 @@ Proof.
   apply ctx_new_spec in Hn. destruct Hn as [[Hmx _] [Ho [Hcfg [Hro [Hs [Had Hu]]]]]].
   assert (Hi0 : wp_inv (c_out (x_codec x0)) (w_log w0)).
   { unfold wp_inv. rewrite Ho, Hl. reflexivity. }
-  refine (wops_accepting _ ops _ _ _ _ _ Hs Had Hu Hp Hi0 _ _ Ha Hf H).
+  refine (wops_accepting _ ops _ _ _ _ _ Hs Had Hp Hi0 _ _ Ha Hf H).
   - rewrite Hl. cbn [queued]. unfold enc at 1. cbn [map concat]. rewrite blen_nil.
     rewrite <- encode_all_enc, Hro. lia.
   - rewrite Hmx, Hcfg. exact Hb.
